@@ -81,7 +81,14 @@ TReadback ==
            S == cur.shapes
            g == e.res.items
        IN  On("C01") =>
-             IF e.random /\ ~e.withShx
+             IF e.via = "nth"
+             THEN \* it.nth(k) and the following next()s yield shapes k+1 .. n; count() = n; last() = shape n
+                  /\ e.res.err = "" /\ e.res.openErr = ""
+                  /\ Len(g) = Len(S) - e.skip
+                  /\ \A i \in 1..Len(g) : ReadBackRel(S[i + e.skip], g[i], Exact)
+                  /\ e.res.count = Len(S)
+                  /\ Len(e.res.last) = 1 /\ ReadBackRel(S[Len(S)], e.res.last[1], Exact)
+             ELSE IF e.random /\ ~e.withShx
              THEN e.res.err = "missing_index" /\ e.res.openErr = "" /\ g = << >>
              ELSE /\ e.res.err = "" /\ e.res.openErr = "" /\ Len(g) = Len(S)
                   /\ \A i \in 1..Len(S) : ReadBackRel(S[i], g[i], Exact)
